@@ -257,6 +257,13 @@ func runnerChild(script string) int {
 			}
 		case a == "snap":
 			snap()
+			if *census {
+				e.censusSnap(500 * time.Millisecond)
+			}
+		case a == "gsnap":
+			if *census {
+				e.censusSnap(500 * time.Millisecond)
+			}
 		case a == "peek":
 			peek()
 		case strings.HasPrefix(a, "sleep:"):
@@ -300,6 +307,9 @@ wait:
 		pushDone = nil
 		snap()
 		time.Sleep(2 * time.Millisecond)
+		if *census {
+			e.censusSnap(1500 * time.Millisecond)
+		}
 	}
 	evs := e.rec.Events()
 	d := 0
@@ -309,6 +319,9 @@ wait:
 	fmt.Printf("T %s %d %s\n", "@", d, strings.Join(evs, " "))
 	if hang {
 		fmt.Printf("HANG %s\n", director.CensusString(director.Census()))
+	}
+	if len(e.unknownSeen) > 0 {
+		fmt.Printf("UNKNOWN %s\n", strings.Join(e.unknownSeen, " | "))
 	}
 	return 0
 }
@@ -361,6 +374,9 @@ func genBehaviours(r *prng.R, n int, allowNever bool) string {
 }
 
 func genScript(r *prng.R, fam string) string {
+	if fam == "census" || fam == "censuslong" {
+		return genCensusScript(r, fam)
+	}
 	pool := hygPool
 	if fam == "collision" || (fam == "mixed" && r.Chance(1, 4)) {
 		pool = colPool
@@ -486,7 +502,11 @@ func runnerBatch() {
 			defer func() { <-sem }()
 			ctx, cancel := context.WithTimeout(bg, 25*time.Second)
 			defer cancel()
-			cmd := exec.CommandContext(ctx, self, "-mode", "runner", "-script", j.script)
+			args := []string{"-mode", "runner", "-script", j.script}
+			if *census {
+				args = append(args, "-census")
+			}
+			cmd := exec.CommandContext(ctx, self, args...)
 			outb, err := cmd.CombinedOutput()
 			mu.Lock()
 			defer mu.Unlock()
@@ -499,6 +519,8 @@ func runnerBatch() {
 					got = true
 				case strings.HasPrefix(l, "HANG"):
 					fmt.Printf("HANG %s %s\n", j.name, l[4:])
+				case strings.HasPrefix(l, "UNKNOWN"):
+					fmt.Printf("UNKNOWN %s %s\n", j.name, l[8:])
 				case strings.HasPrefix(l, "SETUPFAIL"):
 					fmt.Printf("SETUPFAIL %s %s\n", j.name, l)
 				}
